@@ -118,6 +118,22 @@ pub trait DynCipher {
     /// `neg`: for i32 only, seek to -(v) instead of v.
     fn try_seek(&mut self, ty: SeekTy, v: u128, neg: bool) -> Result<(), ()>;
     fn try_pos(&self, ty: SeekTy) -> Result<i128, ()>;
+    /// a copy of the public `state` field (the only way to duplicate a cipher mid-stream)
+    fn snapshot(&self) -> Box<dyn core::any::Any>;
+    /// put a snapshot back, through `Clone::clone_from` or by assigning a fresh clone
+    fn restore(&mut self, s: &dyn core::any::Any, via_clone_from: bool);
+}
+
+fn snap_any<T: Clone + 'static>(t: &T) -> Box<dyn core::any::Any> {
+    Box::new(t.clone())
+}
+fn restore_any<T: Clone + 'static>(t: &mut T, s: &dyn core::any::Any, via_clone_from: bool) {
+    let s = s.downcast_ref::<T>().expect("snapshot of the same cipher type");
+    if via_clone_from {
+        t.clone_from(s)
+    } else {
+        *t = s.clone()
+    }
 }
 
 macro_rules! impl_dyn_cipher {
@@ -146,6 +162,12 @@ macro_rules! impl_dyn_cipher {
                     SeekTy::I32 => StreamCipherSeek::try_seek(self, if neg { -(v as i32) } else { v as i32 }),
                 }
                 .map_err(|_| ())
+            }
+            fn snapshot(&self) -> Box<dyn core::any::Any> {
+                snap_any(&self.state)
+            }
+            fn restore(&mut self, s: &dyn core::any::Any, via_clone_from: bool) {
+                restore_any(&mut self.state, s, via_clone_from)
             }
             fn try_pos(&self, ty: SeekTy) -> Result<i128, ()> {
                 match ty {
@@ -297,24 +319,23 @@ impl_dyn_hash!(jh_x86_64::Jh384);
 impl_dyn_hash!(jh_x86_64::Jh512);
 
 /// Output sizes (bytes) for which Skein types are instantiated.
-pub const SKEIN_N: [usize; 34] = [
-    1, 2, 3, 5, 6, 7, 8, 13, 16, 20, 22, 24, 28, 31, 32, 33, 40, 48, 63, 64, 65, 72, 96, 100, 127, 128, 129, 160, 200, 256, 257, 300,
-    512, 1000,
+pub const SKEIN_N: [usize; 51] = [
+    1, 2, 3, 5, 6, 7, 8, 13, 16, 20, 22, 24, 28, 31, 32, 33, 40, 48, 63, 64, 65, 72, 96, 100, 127, 128, 129, 160, 200, 255, 256, 257, 288, 300, 320, 384, 511, 512, 513, 544, 576, 1000, 1023, 1024, 1025, 4096, 8193, 65535, 65536, 65568, 65600,
 ];
 
 macro_rules! skein_menu {
-    ($($n:literal => $u:ident),*) => {
+    ($($n:literal => $u:ty),*) => {
         $(
-            impl_dyn_hash!(skein_hash::Skein256<tn::$u>);
-            impl_dyn_hash!(skein_hash::Skein512<tn::$u>);
-            impl_dyn_hash!(skein_hash::Skein1024<tn::$u>);
+            impl_dyn_hash!(skein_hash::Skein256<$u>);
+            impl_dyn_hash!(skein_hash::Skein512<$u>);
+            impl_dyn_hash!(skein_hash::Skein1024<$u>);
         )*
         fn new_skein(state_bytes: usize, n: usize) -> Box<dyn DynHash> {
             match (state_bytes, n) {
                 $(
-                    (32, $n) => Box::new(<skein_hash::Skein256<tn::$u> as Default>::default()),
-                    (64, $n) => Box::new(<skein_hash::Skein512<tn::$u> as Default>::default()),
-                    (128, $n) => Box::new(<skein_hash::Skein1024<tn::$u> as Default>::default()),
+                    (32, $n) => Box::new(<skein_hash::Skein256<$u> as Default>::default()),
+                    (64, $n) => Box::new(<skein_hash::Skein512<$u> as Default>::default()),
+                    (128, $n) => Box::new(<skein_hash::Skein1024<$u> as Default>::default()),
                 )*
                 _ => panic!("Skein{}<{}> is not instantiated", state_bytes * 8, n),
             }
@@ -322,20 +343,66 @@ macro_rules! skein_menu {
         fn skein_oneshot(state_bytes: usize, n: usize, m: &[u8]) -> Vec<u8> {
             match (state_bytes, n) {
                 $(
-                    (32, $n) => <skein_hash::Skein256<tn::$u> as Digest>::digest(m).to_vec(),
-                    (64, $n) => <skein_hash::Skein512<tn::$u> as Digest>::digest(m).to_vec(),
-                    (128, $n) => <skein_hash::Skein1024<tn::$u> as Digest>::digest(m).to_vec(),
+                    (32, $n) => <skein_hash::Skein256<$u> as Digest>::digest(m).to_vec(),
+                    (64, $n) => <skein_hash::Skein512<$u> as Digest>::digest(m).to_vec(),
+                    (128, $n) => <skein_hash::Skein1024<$u> as Digest>::digest(m).to_vec(),
                 )*
                 _ => panic!("Skein{}<{}> is not instantiated", state_bytes * 8, n),
             }
         }
     };
 }
-skein_menu!(1 => U1, 2 => U2, 3 => U3, 5 => U5, 6 => U6, 7 => U7, 8 => U8, 13 => U13, 16 => U16, 20 => U20, 22 => U22,
-    24 => U24, 28 => U28, 31 => U31, 40 => U40, 72 => U72,
-    32 => U32, 33 => U33, 48 => U48, 63 => U63, 64 => U64, 65 => U65, 96 => U96, 100 => U100,
-    127 => U127, 128 => U128, 129 => U129, 160 => U160, 200 => U200, 256 => U256, 257 => U257,
-    300 => U300, 512 => U512, 1000 => U1000);
+skein_menu!(1 => tn::U1,
+    2 => tn::U2,
+    3 => tn::U3,
+    5 => tn::U5,
+    6 => tn::U6,
+    7 => tn::U7,
+    8 => tn::U8,
+    13 => tn::U13,
+    16 => tn::U16,
+    20 => tn::U20,
+    22 => tn::U22,
+    24 => tn::U24,
+    28 => tn::U28,
+    31 => tn::U31,
+    40 => tn::U40,
+    72 => tn::U72,
+    32 => tn::U32,
+    33 => tn::U33,
+    48 => tn::U48,
+    63 => tn::U63,
+    64 => tn::U64,
+    65 => tn::U65,
+    96 => tn::U96,
+    100 => tn::U100,
+    127 => tn::U127,
+    128 => tn::U128,
+    129 => tn::U129,
+    160 => tn::U160,
+    200 => tn::U200,
+    256 => tn::U256,
+    257 => tn::U257,
+    300 => tn::U300,
+    512 => tn::U512,
+    1000 => tn::U1000,
+    255 => tn::U255,
+    288 => tn::UInt<tn::UInt<tn::UInt<tn::UInt<tn::UInt<tn::UInt<tn::UInt<tn::UInt<tn::UInt<tn::UTerm, tn::B1>, tn::B0>, tn::B0>, tn::B1>, tn::B0>, tn::B0>, tn::B0>, tn::B0>, tn::B0>,
+    320 => tn::UInt<tn::UInt<tn::UInt<tn::UInt<tn::UInt<tn::UInt<tn::UInt<tn::UInt<tn::UInt<tn::UTerm, tn::B1>, tn::B0>, tn::B1>, tn::B0>, tn::B0>, tn::B0>, tn::B0>, tn::B0>, tn::B0>,
+    384 => tn::U384,
+    511 => tn::U511,
+    513 => tn::U513,
+    544 => tn::UInt<tn::UInt<tn::UInt<tn::UInt<tn::UInt<tn::UInt<tn::UInt<tn::UInt<tn::UInt<tn::UInt<tn::UTerm, tn::B1>, tn::B0>, tn::B0>, tn::B0>, tn::B1>, tn::B0>, tn::B0>, tn::B0>, tn::B0>, tn::B0>,
+    576 => tn::UInt<tn::UInt<tn::UInt<tn::UInt<tn::UInt<tn::UInt<tn::UInt<tn::UInt<tn::UInt<tn::UInt<tn::UTerm, tn::B1>, tn::B0>, tn::B0>, tn::B1>, tn::B0>, tn::B0>, tn::B0>, tn::B0>, tn::B0>, tn::B0>,
+    1023 => tn::U1023,
+    1024 => tn::U1024,
+    1025 => tn::UInt<tn::UInt<tn::UInt<tn::UInt<tn::UInt<tn::UInt<tn::UInt<tn::UInt<tn::UInt<tn::UInt<tn::UInt<tn::UTerm, tn::B1>, tn::B0>, tn::B0>, tn::B0>, tn::B0>, tn::B0>, tn::B0>, tn::B0>, tn::B0>, tn::B0>, tn::B1>,
+    4096 => tn::U4096,
+    8193 => tn::UInt<tn::UInt<tn::UInt<tn::UInt<tn::UInt<tn::UInt<tn::UInt<tn::UInt<tn::UInt<tn::UInt<tn::UInt<tn::UInt<tn::UInt<tn::UInt<tn::UTerm, tn::B1>, tn::B0>, tn::B0>, tn::B0>, tn::B0>, tn::B0>, tn::B0>, tn::B0>, tn::B0>, tn::B0>, tn::B0>, tn::B0>, tn::B0>, tn::B1>,
+    65535 => tn::UInt<tn::UInt<tn::UInt<tn::UInt<tn::UInt<tn::UInt<tn::UInt<tn::UInt<tn::UInt<tn::UInt<tn::UInt<tn::UInt<tn::UInt<tn::UInt<tn::UInt<tn::UInt<tn::UTerm, tn::B1>, tn::B1>, tn::B1>, tn::B1>, tn::B1>, tn::B1>, tn::B1>, tn::B1>, tn::B1>, tn::B1>, tn::B1>, tn::B1>, tn::B1>, tn::B1>, tn::B1>, tn::B1>,
+    65536 => tn::U65536,
+    65568 => tn::UInt<tn::UInt<tn::UInt<tn::UInt<tn::UInt<tn::UInt<tn::UInt<tn::UInt<tn::UInt<tn::UInt<tn::UInt<tn::UInt<tn::UInt<tn::UInt<tn::UInt<tn::UInt<tn::UInt<tn::UTerm, tn::B1>, tn::B0>, tn::B0>, tn::B0>, tn::B0>, tn::B0>, tn::B0>, tn::B0>, tn::B0>, tn::B0>, tn::B0>, tn::B1>, tn::B0>, tn::B0>, tn::B0>, tn::B0>, tn::B0>,
+    65600 => tn::UInt<tn::UInt<tn::UInt<tn::UInt<tn::UInt<tn::UInt<tn::UInt<tn::UInt<tn::UInt<tn::UInt<tn::UInt<tn::UInt<tn::UInt<tn::UInt<tn::UInt<tn::UInt<tn::UInt<tn::UTerm, tn::B1>, tn::B0>, tn::B0>, tn::B0>, tn::B0>, tn::B0>, tn::B0>, tn::B0>, tn::B0>, tn::B0>, tn::B1>, tn::B0>, tn::B0>, tn::B0>, tn::B0>, tn::B0>, tn::B0>);
 
 /// Identifies a hash type: family + variant (+ output bytes for Skein).
 #[derive(Clone, Copy, Debug, PartialEq, Eq)]
